@@ -57,26 +57,36 @@ Theorem C20_result : forall ps es,
   snd (print ps es) <> RPanic /\ snd (print ps es) <> RErrFormat.
 Proof. exact result_thm. Qed.
 
+(* whether an apply / prune / delete event carries an error (skipped events
+   carry the skip reason, failed ones the failure) changes neither the counters
+   nor what counts as a failure: only the Status does *)
+Theorem C20_error_field_irrelevant : forall s k id st h h',
+  handle s (EAct k id st h) = handle s (EAct k id st h') /\
+  is_failure (EAct k id st h) = is_failure (EAct k id st h') /\
+  (forall a es1 es2, counts_after a (es1 ++ EAct k id st h :: es2) = counts_after a (es1 ++ EAct k id st h' :: es2)).
+Proof. exact error_field_irrelevant. Qed.
+
 (* for arbitrary streams: the complete description of the result *)
 Theorem C20_result_any : forall ps es, snd (print ps es) = result_spec [] es.
 Proof. exact result_full_thm. Qed.
 
-(* non-vacuity: an apply / wait / prune run with a failure and a timeout *)
+(* non-vacuity: an apply / wait / prune run with a failure, a timeout and a
+   skipped object whose event carries the skip reason as its error *)
 Example C20_nonvacuous :
   let es := [EValidation [3]; EInit [(0, AcApply); (1, AcWait); (2, AcPrune)];
-             EGroup 0 AcApply false; EAct KApply 0 StSuccessful; EAct KApply 1 StFailed;
-             EAct KApply 2 StSkipped; EGroup 0 AcApply true;
+             EGroup 0 AcApply false; EAct KApply 0 StSuccessful false; EAct KApply 1 StFailed true;
+             EAct KApply 2 StSkipped true; EGroup 0 AcApply true;
              EGroup 1 AcWait false; EWait 0 WPending; EStatus 0 KInProgress; EStatus 0 KCurrent;
              EWait 0 WSuccessful; EWait 1 WSkipped; EWait 2 WTimeout; EGroup 1 AcWait true;
-             EGroup 2 AcPrune false; EAct KPrune 4 StSuccessful; EGroup 2 AcPrune true] in
+             EGroup 2 AcPrune false; EAct KPrune 4 StSuccessful false; EGroup 2 AcPrune true] in
   forallb ev_wf es = true /\ has_stop es = false /\
   print false es =
     ([LValidation [3];
-      LGroup AcApply false None; LAct KApply 0 StSuccessful; LAct KApply 1 StFailed;
-      LAct KApply 2 StSkipped; LGroup AcApply true (Some (mkCounts 3 1 1 1 None));
+      LGroup AcApply false None; LAct KApply 0 StSuccessful false; LAct KApply 1 StFailed true;
+      LAct KApply 2 StSkipped true; LGroup AcApply true (Some (mkCounts 3 1 1 1 None));
       LGroup AcWait false None; LWait 0 WPending; LWait 0 WSuccessful; LWait 1 WSkipped;
       LWait 2 WTimeout; LGroup AcWait true (Some (mkCounts 3 1 1 0 (Some 1)));
-      LGroup AcPrune false None; LAct KPrune 4 StSuccessful;
+      LGroup AcPrune false None; LAct KPrune 4 StSuccessful false;
       LGroup AcPrune true (Some (mkCounts 1 1 0 0 None));
       LSummary AcApply (mkCounts 3 1 1 1 None); LSummary AcPrune (mkCounts 1 1 0 0 None);
       LSummary AcWait (mkCounts 3 1 1 0 (Some 1))], RErrResult).
@@ -89,3 +99,4 @@ Print Assumptions C20_summary.
 Print Assumptions C20_no_summary_after_stop.
 Print Assumptions C20_result.
 Print Assumptions C20_result_any.
+Print Assumptions C20_error_field_irrelevant.
